@@ -257,6 +257,8 @@ M_COLUMN.harnesses.append(H("u16_index_walk_visits_every_live_entry", "U16", kin
 M_COLUMN.harnesses.append(H("u17_iter_values_visits_every_table", "U17", kind="bounded", shape="HashColumn::iter_values (ValueTable::iter_while by contract)", bound="a column with 3 value tables (2 fixed tiers + blob table) instead of 256"))
 # (u20_reindex_batch_*: written, but the queued IndexTable lives on the heap (VecDeque), which hides its size from the symbolic
 # executor; the batch loop is then unrolled to the bound and the harness exceeds the budget -- not registered)
+for n in ["u22_drop_index_advances_to_next_queued_index", "u22_trigger_reindex_queues_the_old_index"]:
+    M_COLUMN.harnesses.append(H(n, "U22", kind="bounded", shape=n[4:], bound="a column with two queued old indexes (16, 17 bits) and an 18-bit current index; IndexTable::drop_file by contract"))
 M_COLUMN.harnesses.append(H("u11_child_count_representable", "U11"))
 for (n, d) in U11_WELL:
     M_COLUMN.harnesses.append(H("u11_well_c%d_d%d" % (n, d), "U11", kind="bounded", tiers=("thorough",) if n == 255 else ("quick", "thorough"),
@@ -350,7 +352,7 @@ PROPS = {
 TB = ["rustc, Kani 0.68, CBMC 6.11, kissat/CaDiCaL, Verus 0.2026.09.13, Z3 (the verifiers themselves)"]
 
 PROPS["C09"] = {
-    "kani_units": ["U1", "U3", "U4", "U15"],
+    "kani_units": ["U1", "U3", "U4", "U15", "U22"],
     "verus_units": ["index_search", "lookup_chain"],
     "level": "other",
     "technique": "Kani/CBMC contracts on the real index codec, page update and key recovery (complete over all pages/keys/index sizes) + Verus proof of the real collision-chain lookups against callee contracts",
@@ -481,6 +483,7 @@ UNIT_META = {
     "U20": {"functions": ["column::HashColumn::reindex"], "assumes": ["IndexTable::entries returns the chunk's entries (U1)"]},
     "U21": {"functions": ["db::DbInner::enact_logs (validation mode: sequence gate, validate-then-apply order)"],
             "assumes": ["Log::{read_next,end_read,clear_replay_logs} and LogReader::{next,reset} replaced by contracts; the record has no actions"]},
+    "U22": {"functions": ["column::HashColumn::{trigger_reindex,drop_index}"], "assumes": ["IndexTable::drop_file replaced by a counter (file removal)"]},
     "U11": {"functions": ["column::{unpack_node_data,unpack_node_children,packed_node_size,packed_child_count}"], "assumes": []},
     "U14": {"functions": ["table::ValueTable::{clear_slot,next_free,read_next_free,complete_plan,write_remove_plan,clear_chain}"], "assumes": ["LogWriter ghost view"]},
     "index_search": {"functions": ["index::Entry::*", "index::Address::*", "index::IndexTable::{chunk_index,find_entry_base}"], "assumes": ["read_entry contract (external_body; proved by Kani U1.read_entry_is_le_word)"]},
